@@ -315,7 +315,10 @@ func (p c20) Run(c *core.Ctx) {
 			prog = gen.Flow(r, cfg)
 		}
 		base := hast.Render(prog, hast.RandomLayout(r.Fork()))[0]
-		switch r.PickW(40, 25, 15, 20) {
+		switch r.PickW(40, 25, 15, 20, 10) {
+		case 4:
+			// structure markers that are themselves indented inside an open block
+			in, class = indentMarkers(r, base), "indented-markers"
 		case 0:
 			in, class = base, "valid"
 		case 1:
@@ -411,4 +414,21 @@ func (c20) tokens(c *core.Ctx, in string) (diff string, detail map[string]any) {
 		detail["indentation_tokens"] = strings.Join(kinds, " ")
 	}
 	return diff, detail
+}
+
+// indentMarkers indents some of the --- / === lines (and the header lines after them) of a script to
+// the depth of the line before them.
+func indentMarkers(r *core.Rand, s string) string {
+	lines := strings.SplitAfter(s, "\n")
+	for i := 1; i < len(lines); i++ {
+		if (strings.HasPrefix(lines[i], "===") || strings.HasPrefix(lines[i], "---") || strings.HasPrefix(lines[i], "title:")) && r.Chance(1, 2) {
+			prev := lines[i-1]
+			ws := prev[:len(prev)-len(strings.TrimLeft(prev, " \t"))]
+			if ws == "" {
+				ws = r.Pick("    ", "\t", "  ")
+			}
+			lines[i] = ws + lines[i]
+		}
+	}
+	return strings.Join(lines, "")
 }
